@@ -300,6 +300,10 @@ func (c *Ctx) Callees(cc *ssa.CallCommon) []*ssa.Function {
 	if f := cc.StaticCallee(); f != nil {
 		return []*ssa.Function{f}
 	}
+	// the function field of the table element under consideration (table-driven loops, one element at a time)
+	if f, ok := c.fnSubst[cc.Value]; ok && !cc.IsInvoke() {
+		return []*ssa.Function{f}
+	}
 	if cc.IsInvoke() {
 		iface, ok := cc.Value.Type().Underlying().(*types.Interface)
 		if !ok {
